@@ -127,3 +127,32 @@ def resolve_capture(p, cf, e):
             if k < len(caps):
                 return deep_strip(caps[k]), parent
     return None
+
+
+OO = "std::fs::OpenOptions::"
+
+
+def open_options(f, opn):
+    """{setter: [argument expr]} of the OpenOptions value opened at call site `opn`: the setters chained into
+    the receiver expression plus setters applied (by &mut) to the same OpenOptions::new() value on the way
+    to the open.  A setter applied twice is not a recognised shape."""
+    from l4sa.core import ShapeUnrecognised, calls_in, walk
+    chain = opn.arg(0)
+    opts, seen = {}, set()
+    for c in calls_in(chain):
+        if c[1].startswith(OO) and len(c[2]) == 2:
+            opts.setdefault(c[1].rsplit("::", 1)[-1], []).append(c[2][1])
+            seen.add(c[3])
+    roots = {c[3] for c in calls_in(chain) if c[1] == OO + "new"}
+    if roots:
+        for cs in f.calls():
+            n = cs.callee or ""
+            if not n.startswith(OO) or len(cs.args) != 2 or cs.block in seen:
+                continue
+            if any(x[0] == "call" and x[1] == OO + "new" and x[3] in roots for x in walk(cs.arg(0))) and f.dominates(cs.block, opn.block):
+                opts.setdefault(n.rsplit("::", 1)[-1], []).append(cs.arg(1))
+                seen.add(cs.block)
+    for k, v in opts.items():
+        if len(v) > 1:
+            raise ShapeUnrecognised("%s: OpenOptions::%s is applied %d times before the open" % (f.path, k, len(v)))
+    return opts
